@@ -12,7 +12,7 @@ pub const VOLS: [f64; 13] = [-60.0, -20.0, -6.0, -0.5, -0.001, 0.0, 0.001, 0.5, 
 
 pub fn run(tier: Tier) -> i32 {
     let rep = Report::new("C16", tier, "model_checking");
-    rep.set_rule("SCOPE: volumes {-60,-20,-6,-0.5,-0.001,0,0.001,0.5,1,2,6,20,60} dB x voices (V0 mel-cepstral, generated mel-cepstral, generated LSP 3- and 2-stream) x short utterances x (default condition + every single further deviation); oracle: every sample = 10^(v/20) x the 0 dB sample (rel 1e-12), get_volume within 1e-9, all other getters unchanged; plus streaming use: generate_step into pre-filled buffers of 1x/2x/3x fperiod + 1 samples, where the produced frame is scaled and everything else in the buffer equals the 0 dB run; distinct = (voice, other deviation, utterance, volume); non-trivial = v != 0 and non-empty waveform");
+    rep.set_rule("SCOPE: volumes {-60,-20,-6,-0.5,-0.001,0,0.001,0.5,1,2,6,20,60} dB x voices (V0 mel-cepstral, generated mel-cepstral, generated LSP 3- and 2-stream) x short utterances x (default condition + every single further deviation); oracle: every sample = 10^(v/20) x the 0 dB sample (rel 1e-12), get_volume within 1e-9, all other getters unchanged; plus a volume set before load_model (equal to setting it afterwards); plus streaming use: generate_step into pre-filled buffers of 1x/2x/3x fperiod + 1 samples, where the produced frame is scaled and everything else in the buffer equals the 0 dB run; distinct = (voice, other deviation, utterance, volume); non-trivial = v != 0 and non-empty waveform");
     rep.assume("volume lattice only; comparison skipped on samples that are non-finite in the 0 dB run");
     let corpus = labels::corpus();
     let utts: Vec<Vec<String>> = vec![vec![corpus[41].clone()], corpus[40..43].to_vec(), corpus[0..2].to_vec()];
@@ -192,6 +192,35 @@ pub fn run(tier: Tier) -> i32 {
     }
     rep.note("stepwise_cases", json!(stepped.load(Ordering::Relaxed)));
     rep.nontrivial.store(nontriv.load(Ordering::Relaxed), Ordering::Relaxed);
+    // a volume chosen before the voices are bound (Condition::default, set_volume, load_model, Engine::new): the setting
+    // is the caller's, not the voice's; it must be in force exactly as when it is set after loading
+    {
+        let cfg = GenCfg { nstate: 2, ..GenCfg::default() };
+        let voice = std::sync::Arc::new(load_voice_bytes(&cfg.bytes()).expect("generated voice"));
+        let u = vec![labels::corpus()[41].clone(), labels::corpus()[42].clone()];
+        for &vol in &[-12.5, 6.0] {
+            rep.eval(1);
+            let r = catch(|| -> Result<(Vec<f64>, f64, Vec<f64>), String> {
+                let vs = jbonsai::model::VoiceSet::new(vec![voice.clone()]).map_err(|e| e.to_string())?;
+                let mut c = jbonsai::Condition::default();
+                c.set_volume(vol);
+                c.load_model(&vs).map_err(|e| e.to_string())?;
+                let before = jbonsai::Engine::new(vs.clone(), c);
+                let mut after = engine_from_voices(vec![voice.clone()]).map_err(|e| e.to_string())?;
+                after.condition.set_volume(vol);
+                Ok((before.synthesize(&u[..]).map_err(|e| e.to_string())?, before.condition.get_volume(), after.synthesize(&u[..]).map_err(|e| e.to_string())?))
+            });
+            rep.cmp(2);
+            match r {
+                Ok(Ok((wb, gv, wa))) => {
+                    if !bits_eq(&wb, &wa) || (gv - vol).abs() > 1e-9 {
+                        rep.violation("set-before-load", format!("set_volume({}) before load_model: get_volume {} and the waveform {} the one obtained by setting it after loading", vol, gv, if bits_eq(&wb, &wa) { "equals" } else { "differs from" }), json!({"voice": cfg.describe(), "volume_db": vol, "labels": u}));
+                    }
+                }
+                other => rep.violation("set-before-load", format!("set_volume before load_model fails: {:?}", other.map(|_| ())), json!({"voice": cfg.describe(), "volume_db": vol})),
+            }
+        }
+    }
     rep.note("bounds", json!({"volumes_db": VOLS, "voices": voices.iter().map(|v| v.0.clone()).collect::<Vec<_>>(), "utterances": utts.len(), "jobs": jobs.len(), "worst_relative_gain_error": *worst.lock().unwrap()}));
     rep.sample(json!({"voice": "V0", "other_condition": [], "labels": utts[0], "volume_db": -60.0}));
     rep.sample_last(json!({"voice": voices.last().unwrap().0, "other_condition": "Rate(96000)", "labels": utts[2], "volume_db": 60.0}));
